@@ -3,6 +3,7 @@ import Tbx.Model.RTreeHeap
 import Tbx.Spec.Nearest
 import Tbx.Proofs.RTreeCover
 import Tbx.Proofs.RTreeFuelBulk
+import Tbx.Proofs.RTreeZOrder
 /-
 C12 — R-tree nearest iteration yields every element once, nearest first.
 
@@ -220,12 +221,84 @@ example : CompleteOK [10, 20, 30, 40, 50] exDist [(50, 18), (30, 2), (40, 8), (2
     nondecB ([(50, 18), (30, 2), (40, 8), (20, 12), (10, 22)].map Prod.snd) = false :=
   ⟨⟨by decide, by decide⟩, by decide⟩
 
-/-! ### stated, not proved -/
+/-! ### the Z-order sort -/
 
-/-- The Z-order comparison is the lexicographic comparison of the interleaved (Morton) keys of the
-sign-flipped coordinates, hence a total preorder, so the stable sort is determined. -/
-def zorder_total_preorder_statement : Prop :=
-  (∀ a b c : Coord, zorderCmp a b ≠ .gt → zorderCmp b c ≠ .gt → zorderCmp a c ≠ .gt) ∧
-  (∀ a b : Coord, zorderCmp a b ≠ .gt ∨ zorderCmp b a ≠ .gt)
+/-- both components are i32 values (true of every `FPCoordinate` by its type) -/
+def CoordI32 (c : Coord) : Prop := Tbx.Geo.CoordI32 (toGeo c)
+
+instance (c : Coord) : Decidable (CoordI32 c) := by unfold CoordI32; infer_instance
+
+/-- on i32 coordinates the comparison is the comparison of the interleaved (Morton) keys of the sign-flipped
+components (`Tbx.Geo.zkey`, proved for the C19 model in `Tbx.Proofs.GeoZOrder` and transported along
+`zorderCmp_eq_geo`) -/
+theorem zorder_key (a b : Coord) (ha : CoordI32 a) (hb : CoordI32 b) :
+    zorderCmp a b = compare (Tbx.Geo.zkey (toGeo a)) (Tbx.Geo.zkey (toGeo b)) := by
+  rw [zorderCmp_eq_geo]; exact Tbx.Geo.zorderCmp_eq_key _ _ ha hb
+
+/-- **zorder_total_preorder.** On i32 coordinates `zorder_cmp` is a total preorder (`≠ Greater` is transitive
+and total) and answers `Equal` only for identical coordinates, so the stable sort is determined.
+The i32 hypothesis is necessary: the model computes the xor / msb on the 32-bit patterns (which wrap) but the
+final `compare` on the integers (which do not), so for arbitrary `Int` the statement is false, e.g.
+a = (0,0), b = (0,-2^32), c = (0,-1): a ≤ b (equal patterns), b ≤ c, but a > c. -/
+theorem zorder_total_preorder (a b c : Coord) (ha : CoordI32 a) (hb : CoordI32 b) (hc : CoordI32 c) :
+    (zorderCmp a b ≠ .gt → zorderCmp b c ≠ .gt → zorderCmp a c ≠ .gt) ∧
+    (zorderCmp a b ≠ .gt ∨ zorderCmp b a ≠ .gt) ∧
+    (zorderCmp a b = .eq ↔ a = b) := by
+  rw [zorder_key a b ha hb, zorder_key b c hb hc, zorder_key a c ha hc, zorder_key b a hb ha]
+  simp only [Nat.compare_ne_gt, Nat.compare_eq_eq]
+  refine ⟨Nat.le_trans, Nat.le_total _ _, ?_, fun h => by rw [h]⟩
+  intro h
+  have := Tbx.Geo.zkey_inj _ _ ha hb h
+  cases a; cases b
+  simp only [toGeo, Tbx.Geo.Coord.mk.injEq] at this
+  simp [this.1, this.2]
+
+/-- the counterexample of the comment, and an in-range instance across the sign boundary -/
+example : zorderCmp ⟨0, 0⟩ ⟨0, -4294967296⟩ ≠ .gt ∧ zorderCmp ⟨0, -4294967296⟩ ⟨0, -1⟩ ≠ .gt ∧
+    zorderCmp ⟨0, 0⟩ ⟨0, -1⟩ = .gt := by decide
+example : CoordI32 ⟨-1, 5⟩ ∧ CoordI32 ⟨0, -7⟩ ∧ zorderCmp ⟨-1, 5⟩ ⟨0, -7⟩ = .lt := by decide
+
+/-- **zsort_sorted_perm.** For elements whose centres are i32 coordinates, the first step of `from_elements`
+yields a permutation of the input that is sorted by `zorder_cmp`; if the centres of the input are pairwise
+distinct it is the only such list (so any correct sort gives the same leaves). -/
+theorem zsort_sorted_perm {α : Type} (center : α → Coord) (hc : ∀ e, CoordI32 (center e)) (es : List α) :
+    (zsort center es).Perm es ∧
+    (zsort center es).Pairwise (fun a b => zorderCmp (center a) (center b) ≠ .gt) ∧
+    ((∀ a ∈ es, ∀ b ∈ es, center a = center b → a = b) →
+      ∀ out : List α, out.Perm es → out.Pairwise (fun a b => zorderCmp (center a) (center b) ≠ .gt) →
+        out = zsort center es) := by
+  have hperm : (zsort center es).Perm es := List.mergeSort_perm es _
+  have hsorted : (zsort center es).Pairwise (fun a b => zorderCmp (center a) (center b) ≠ .gt) := by
+    have := List.pairwise_mergeSort (le := fun a b => zorderCmp (center a) (center b) != .gt)
+      (by
+        intro a b c h1 h2
+        simp only [bne_iff_ne, ne_eq] at h1 h2 ⊢
+        exact (zorder_total_preorder _ _ _ (hc a) (hc b) (hc c)).1 h1 h2)
+      (by
+        intro a b
+        simp only [Bool.or_eq_true, bne_iff_ne, ne_eq]
+        exact (zorder_total_preorder _ _ _ (hc a) (hc b) (hc a)).2.1) es
+    refine this.imp ?_
+    intro a b h
+    simpa using h
+  refine ⟨hperm, hsorted, ?_⟩
+  intro hinj out hp hs
+  refine List.Perm.eq_of_pairwise ?_ hs hsorted (hp.trans hperm.symm)
+  intro a b ha hb h1 h2
+  have hae : a ∈ es := hp.mem_iff.mp ha
+  have hbe : b ∈ es := hperm.mem_iff.mp hb
+  apply hinj a hae b hbe
+  -- both `≤`: the keys are equal, hence the coordinates
+  have hk1 := h1; have hk2 := h2
+  rw [zorder_key _ _ (hc a) (hc b), Nat.compare_ne_gt] at hk1
+  rw [zorder_key _ _ (hc b) (hc a), Nat.compare_ne_gt] at hk2
+  have heq : zorderCmp (center a) (center b) = .eq := by
+    rw [zorder_key _ _ (hc a) (hc b), Nat.compare_eq_eq]; omega
+  exact (zorder_total_preorder _ _ _ (hc a) (hc b) (hc a)).2.2.mp heq
+
+/-- non-vacuity: a finite element type with i32 centres that are pairwise distinct -/
+example : (∀ e : Fin 3, CoordI32 ((fun i : Fin 3 => (⟨(i.val : Int) - 1, 5 - 6 * (i.val : Int)⟩ : Coord)) e)) ∧
+    (∀ a b : Fin 3, (⟨(a.val : Int) - 1, 5 - 6 * (a.val : Int)⟩ : Coord) = ⟨(b.val : Int) - 1, 5 - 6 * (b.val : Int)⟩ → a = b) := by
+  decide
 
 end Tbx.Props.C12
